@@ -15,7 +15,7 @@ import ast
 import math
 
 from ..match import calls, expected_term, fold_with, init_constants, returns, term_of
-from ..model import Inconclusive, own_nodes
+from ..model import Inconclusive, own_nodes, parents
 from ..terms import show, walk_term
 
 EXPLANATION = ('Constant folding of the sketch parameters (R8), typestate analysis of HyperLogLogWCache.add by abstract interpretation of its body in the five abstract '
@@ -411,6 +411,14 @@ def register_update(chk, upd, consts):
     rho = 'self.width - (x >> self.p).bit_length()'
     val_ok = val in (E(f'max(self.M[x & (self.m - 1)], {rho})'), E(f'max({rho}, self.M[x & (self.m - 1)])'), E(f'max(self.M[x % self.m], {rho})'),
                      E(f'numpy.maximum(self.M[x & (self.m - 1)], {rho})'))
+    if not val_ok:
+        # the same update written as a guarded store:  if rho > M[j]: M[j] = rho
+        par_u = parents(upd.node)
+        g = par_u.get(st)
+        rho_t, cell_forms = E(rho), (E('self.M[x & (self.m - 1)]'), E('self.M[x % self.m]'))
+        if isinstance(g, ast.If) and not g.orelse and [b for b in g.body if not isinstance(b, ast.Pass)] == [st] and val == rho_t:
+            gt = term_of(upd, g.test, bound)
+            val_ok = any(gt in (('cmp', '<', cell, rho_t), ('cmp', '<=', cell, rho_t)) for cell in cell_forms)
     chk.expect(val_ok, 'C14.3d', 'R15', upd.site(st), ast.unparse(st.value), 'register := max(register, width - bit_length(x >> p)): monotone, order independent',
                f'the register update must be max(old, width - bit_length(x >> p)) at the same bucket; found {show(val)[:160]}')
     # value is converted to bytes (str encoded) before hashing; every path updates the hasher exactly with the value
